@@ -41,6 +41,14 @@ type tqCase struct {
 	// of an object are issued right after its first delivery has been observed
 	SlowWatcherMs int   `json:"slow_watcher_ms,omitempty"`
 	LateAdds      []int `json:"late_adds,omitempty"`
+	Sizes         []int `json:"sizes,omitempty"` // per oid (default 3): batches are sorted by descending size
+}
+
+func (tc tqCase) size(i int) int64 {
+	if i >= 0 && i < len(tc.Sizes) && tc.Sizes[i] > 0 {
+		return int64(tc.Sizes[i])
+	}
+	return 3
 }
 
 func (tc tqCase) encode() string {
@@ -331,7 +339,7 @@ func runTqCase(tc tqCase, workdir string) *tqObs {
 				go func() {
 					time.Sleep(time.Duration(1+tc.SlowWatcherMs/3) * time.Millisecond)
 					for _, i := range tc.LateAdds {
-						q.Add(fmt.Sprintf("name-%d", i), "", tqOid(i), 3, false, nil)
+						q.Add(fmt.Sprintf("name-%d", i), "", tqOid(i), tc.size(i), false, nil)
 						dmu.Lock()
 						lateAdded++
 						dmu.Unlock()
@@ -360,7 +368,7 @@ func runTqCase(tc tqCase, workdir string) *tqObs {
 		if missing {
 			os.Remove(p)
 		} else {
-			os.WriteFile(p, []byte("abc"), 0o644)
+			os.WriteFile(p, []byte("abcdefghijklmnopqrstuvwxyz")[:tc.size(i)], 0o644)
 		}
 		paths[i] = p
 	}
@@ -375,7 +383,7 @@ func runTqCase(tc tqCase, workdir string) *tqObs {
 					}
 				}
 			}
-			q.Add(fmt.Sprintf("name-%d", i), paths[i], tqOid(i), 3, missing, nil)
+			q.Add(fmt.Sprintf("name-%d", i), paths[i], tqOid(i), tc.size(i), missing, nil)
 			added <- k + 1
 		}
 		close(added)
